@@ -9,6 +9,7 @@ import (
 	"fmt"
 	"os"
 	"runtime/debug"
+	"sync"
 
 	"verif/engine/report"
 )
@@ -69,3 +70,20 @@ func guard(r *report.Run, site string, replay interface{}, f func()) (ok bool) {
 }
 
 var alphabet = []byte{0x00, 0x01, 0x7f, 0x80, 0xff}
+
+// sample records at most two samples per sub-suite so that the evidence shows every suite.
+var (
+	sampleMu sync.Mutex
+	sampleN  = map[string]int{}
+)
+
+func sample(r *report.Run, suite string, v map[string]interface{}) {
+	sampleMu.Lock()
+	defer sampleMu.Unlock()
+	if sampleN[suite] >= 2 {
+		return
+	}
+	sampleN[suite]++
+	v["suite"] = suite
+	r.Sample(v)
+}
